@@ -127,7 +127,7 @@ theorem gutter_line (d : Nat) (t x : Str) (ht : t = tickOf d ∨ t = "+ ".toList
     simp
 
 /-- the gutter of the first line of a branch: depth `d`, mark `\` -/
-theorem gutter_marked (d : Nat) (hd : 1 ≤ d) (t x : Str) (ht : t = tickOf d ∨ t = "+ ".toList) :
+theorem gutter_marked (d : Nat) (_hd : 1 ≤ d) (t x : Str) (ht : t = tickOf d ∨ t = "+ ".toList) :
     gutter (remark d (indentOf d ++ t ++ x) '\\') = (d, some '\\') := by
   have htl : ∃ c, t = c :: ' ' :: [] := by
     rcases ht with rfl | rfl
@@ -217,7 +217,7 @@ theorem rstep_targetLine (inner : CallInfo) (s : RS) (d w : Nat) (f : Frame) :
   unfold rstep
   simp only [hal, hg.1]
   have e2 : (((gutter (indentOf d ++ tickOf d ++ ("Target".toList ++ ": ".toList ++ tgtShown w f d))).2 == some '\\') &&
-      decide (d > 0)) = false := by simp [hg.2.1]
+      decide (d > 0)) = false := by rw [beq_eq_false_iff_ne.mpr hg.2.1]; rfl
   rw [e2]
   rfl
 
@@ -239,11 +239,12 @@ theorem rstep_specLine (inner : CallInfo) (s : RS) (d w : Nat) (t : Str) (f : Fr
   unfold rstep
   simp only [hal1, hal2, hg.1]
   have e2 : (((gutter (indentOf d ++ t ++ ("Spec".toList ++ ": ".toList ++ specShown w f d))).2 == some '\\') &&
-      decide (d > 0)) = false := by simp [hg.2.1]
+      decide (d > 0)) = false := by rw [beq_eq_false_iff_ne.mpr hg.2.1]; rfl
   have e4 : (((gutter (indentOf d ++ t ++ ("Spec".toList ++ ": ".toList ++ specShown w f d))).2 == some 'X') &&
-      decide (d > 0)) = false := by simp [hg.2.2]
+      decide (d > 0)) = false := by rw [beq_eq_false_iff_ne.mpr hg.2.2]; rfl
   rw [e2, e4]
-  simp
+  simp only [Bool.false_eq_true, if_false, List.append_nil]
+  split <;> rfl
 
 /-- the first line of a branch (marked `\`), when it is a `Target:` / `Spec:` line -/
 theorem readT_marked_line (inner : CallInfo) (s : RS) (d : Nat) (hd : 1 ≤ d) (t body : Str)
@@ -263,5 +264,160 @@ theorem readT_marked_line (inner : CallInfo) (s : RS) (d : Nat) (hd : 1 ≤ d) (
   apply rstep_marked inner s _ _ d hd (gutter_marked d hd t body ht) hgl.1 hgl.2.1 hgl.2.2
   · rw [hrem, afterLabel_gutter _ _ _ hg', afterLabel_gutter _ _ _ hg]
   · rw [hrem, afterLabel_gutter _ _ _ hg', afterLabel_gutter _ _ _ hg]
+
+
+/-! ### branches that are read over: they do not touch the targets in force at lower depths -/
+
+/-- a line that starts like a line nested at depth ≥ `δ` -/
+def DeepAt (δ : Nat) (l : Str) : Prop :=
+  ∃ c x, l = ' ' :: (List.replicate δ '|' ++ c :: x) ∧ (c = '|' ∨ c = '\\' ∨ c = 'X' ∨ c = '+')
+
+theorem DeepAt_gutter {δ : Nat} {l : Str} (h : DeepAt δ l) : δ ≤ (gutter l).1 := by
+  obtain ⟨c, x, rfl, hc⟩ := h
+  rcases hc with rfl | rfl | rfl | rfl
+  · -- one more bar: at least δ + 1 bars
+    have h1 : ' ' :: (List.replicate δ '|' ++ '|' :: x) = ' ' :: (List.replicate (δ + 1) '|' ++ x) := by
+      simp [List.replicate_succ']
+    rw [h1]
+    simp only [gutter]
+    have hb : δ + 1 ≤ ((List.replicate (δ + 1) '|' ++ x).takeWhile (· == '|')).length := by
+      rw [List.takeWhile_append_of_pos (by simp)]
+      simp
+    split <;> simp only [] <;> omega
+  · simp only [gutter, takeWhile_bars δ '\\' x (by decide), List.length_replicate, drop_bars]; simp
+  · simp only [gutter, takeWhile_bars δ 'X' x (by decide), List.length_replicate, drop_bars]; simp
+  · simp only [gutter, takeWhile_bars δ '+' x (by decide), List.length_replicate, drop_bars]; simp
+
+theorem DeepAt_mono {δ δ' : Nat} {l : Str} (h : DeepAt δ' l) (hd : δ ≤ δ') : DeepAt δ l := by
+  obtain ⟨c, x, rfl, hc⟩ := h
+  by_cases he : δ = δ'
+  · subst he; exact ⟨c, x, rfl, hc⟩
+  · obtain ⟨k, rfl⟩ : ∃ k, δ' = δ + (k + 1) := ⟨δ' - δ - 1, by omega⟩
+    refine ⟨'|', List.replicate k '|' ++ c :: x, ?_, Or.inl rfl⟩
+    rw [← List.replicate_append_replicate, List.replicate_succ]
+    simp
+
+theorem DeepAt_remark {δ : Nat} {l : Str} (p : Nat) (m : Char) (h : DeepAt δ l) (hp : δ ≤ p)
+    (hm : m = '\\' ∨ m = 'X') : DeepAt δ (remark p l m) := by
+  obtain ⟨c, x, rfl, hc⟩ := h
+  have hA : (' ' :: List.replicate δ '|').length = δ + 1 := by simp
+  have hl : ' ' :: (List.replicate δ '|' ++ c :: x) = (' ' :: List.replicate δ '|') ++ c :: x := by simp
+  unfold remark
+  by_cases he : p = δ
+  · subst he
+    refine ⟨m, x, ?_, by rcases hm with rfl | rfl <;> simp⟩
+    rw [hl, List.take_left' hA]
+    have : ((' ' :: List.replicate p '|') ++ c :: x).drop (p + 2) = x := by
+      have : ((' ' :: List.replicate p '|') ++ [c]).length = p + 2 := by simp
+      rw [show (' ' :: List.replicate p '|') ++ c :: x = ((' ' :: List.replicate p '|') ++ [c]) ++ x by simp,
+        List.drop_left' this]
+    rw [this]
+    simp
+  · obtain ⟨k, rfl⟩ : ∃ k, p = δ + 1 + k := ⟨p - δ - 1, by omega⟩
+    refine ⟨c, x.take k ++ m :: x.drop (k + 1), ?_, hc⟩
+    rw [hl]
+    have e1 : ((' ' :: List.replicate δ '|') ++ c :: x).take (δ + 1 + k + 1) =
+        (' ' :: List.replicate δ '|') ++ c :: x.take k := by
+      rw [List.take_append, List.take_of_length_le (by simp; omega), hA]
+      have : δ + 1 + k + 1 - (δ + 1) = k + 1 := by omega
+      rw [this]; simp
+    have e2 : ((' ' :: List.replicate δ '|') ++ c :: x).drop (δ + 1 + k + 2) = x.drop (k + 1) := by
+      rw [List.drop_append, List.drop_of_length_le (by simp; omega), hA]
+      have : δ + 1 + k + 2 - (δ + 1) = k + 2 := by omega
+      rw [this]; simp
+    rw [e1, e2]
+    simp
+
+theorem DeepAt_indent (d : Nat) (hd : 1 ≤ d) (t x : Str) (ht : t = tickOf d ∨ t = "+ ".toList) :
+    DeepAt d (indentOf d ++ t ++ x) := by
+  rcases ht with rfl | rfl
+  · have : tickOf d = "| ".toList := by unfold tickOf; rw [if_neg (by simp; omega)]
+    rw [this]
+    exact ⟨'|', ' ' :: x, by simp [indentOf], Or.inl rfl⟩
+  · exact ⟨'+', ' ' :: x, by simp [indentOf], Or.inr (Or.inr (Or.inr rfl))⟩
+
+/-- a line the reader passes without touching the targets -/
+def Quiet (l : Str) : Prop :=
+  afterLabel "Target".toList l = none ∧ ¬ ((gutter l).2 = some '\\' ∧ 0 < (gutter l).1)
+
+def DQ (δ : Nat) (l : Str) : Prop := DeepAt δ l ∨ Quiet l
+
+/-- the reader on a line nested at depth ≥ `δ` (or a quiet one): the targets below `δ` stay -/
+theorem rstep_DQ (inner : CallInfo) (s : RS) (l : Str) (δ : Nat) (h : DQ δ l) :
+    ∀ i, i < δ → getAt (rstep inner s l).1 i = getAt s.1 i := by
+  intro i hi
+  rcases h with h | h
+  · have hd := DeepAt_gutter h
+    have htg1 : getAt (if ((gutter l).2 == some '\\' && decide ((gutter l).1 > 0)) = true
+        then setAt s.1 (gutter l).1 (getAt s.1 ((gutter l).1 - 1)) else s.1) i = getAt s.1 i := by
+      split
+      · exact getAt_setAt_ne _ _ _ _ (by omega)
+      · rfl
+    unfold rstep
+    simp only []
+    cases afterLabel "Target".toList l with
+    | some t => simp only []; rw [getAt_setAt_ne _ _ _ _ (by omega)]; exact htg1
+    | none =>
+      simp only []
+      cases afterLabel "Spec".toList l with
+      | none => exact htg1
+      | some shown => simp only []; split <;> exact htg1
+  · obtain ⟨h1, h2⟩ := h
+    have hc : ((gutter l).2 == some '\\' && decide ((gutter l).1 > 0)) = false := by
+      cases hb : ((gutter l).2 == some '\\' && decide ((gutter l).1 > 0)) with
+      | false => rfl
+      | true =>
+        simp only [Bool.and_eq_true, beq_iff_eq, decide_eq_true_eq] at hb
+        exact absurd ⟨hb.1, hb.2⟩ h2
+    unfold rstep
+    simp only [h1, hc, Bool.false_eq_true, if_false]
+    cases afterLabel "Spec".toList l with
+    | none => rfl
+    | some shown => simp only []; split <;> rfl
+
+theorem foldl_rstep_DQ (inner : CallInfo) (δ : Nat) : ∀ (lines : List Str) (s : RS), (∀ l, l ∈ lines → DQ δ l) →
+    ∀ i, i < δ → getAt (lines.foldl (rstep inner) s).1 i = getAt s.1 i
+  | [], _, _, _, _ => rfl
+  | l :: rest, s, h, i, hi => by
+    simp only [List.foldl_cons]
+    rw [foldl_rstep_DQ inner δ rest _ (fun l' hl' => h l' (List.mem_cons_of_mem _ hl')) i hi]
+    exact rstep_DQ inner s l δ (h l (by simp)) i hi
+
+/-! ### lines that do not show the spec looked for leave the candidates alone -/
+
+theorem rstep_found (inner : CallInfo) (s : RS) (l : Str)
+    (h : ∀ shown, afterLabel "Spec".toList l = some shown → showsValue inner.spec inner.slen shown = false) :
+    (rstep inner s l).2 = s.2 := by
+  unfold rstep
+  simp only []
+  cases afterLabel "Target".toList l with
+  | some t => rfl
+  | none =>
+    simp only []
+    cases hs : afterLabel "Spec".toList l with
+    | none => rfl
+    | some shown =>
+      simp only []
+      rw [h shown hs]
+      rfl
+
+theorem readT_found (inner : CallInfo) (T : Str) (s : RS)
+    (h : ∀ shown, shown ∈ SLT T → showsValue inner.spec inner.slen shown = false) : (readT inner T s).2 = s.2 := by
+  unfold readT
+  have key : ∀ (lines : List Str) (s : RS), (∀ l, l ∈ lines → ∀ shown, afterLabel "Spec".toList l = some shown →
+      showsValue inner.spec inner.slen shown = false) → (lines.foldl (rstep inner) s).2 = s.2 := by
+    intro lines
+    induction lines with
+    | nil => intro s _; rfl
+    | cons l rest ih =>
+      intro s hl
+      simp only [List.foldl_cons]
+      rw [ih _ (fun l' hl' => hl l' (List.mem_cons_of_mem _ hl'))]
+      exact rstep_found inner s l (hl l (by simp))
+  apply key
+  intro l hl shown hs
+  apply h shown
+  unfold SLT linesMap
+  exact List.mem_filterMap.mpr ⟨l, hl, hs⟩
 
 end Glom.C05
